@@ -39,8 +39,8 @@ PROPS["C02"] = {
 }
 
 PROPS["C10"] = {
-    "modules": ["C10"],
-    "required_theorems": ["C10_holds", "step_roll"],
+    "modules": ["C10", "C10Again"],
+    "required_theorems": ["C10_holds", "step_roll", "C10_again_holds", "afterCheck_rolled_offer", "shouldInstall_rolled"],
     "monitors": ["C10"],
     "fields": ["ret", "pj", "pd", "sj"],
     "campaign": camp([("rollback", 500), ("lifecycle", 300), ("mixed", 300), ("chaos", 150), ("release", 100)],
